@@ -133,6 +133,8 @@ def build(kind, n, na, nb, seed=0, variant="", n_batch=1, eps=None, full_basis=T
         Q = al.frame(n, seed, 1)
         T = _tmat(na, seed, 1) if variant == "nonorth" else _cmat(na, seed, 1) if variant == "complex" else np.eye(na)
         mo = Q[:, :na] @ T
+        if variant == "complex_orth":  # genuinely complex occupied space, orthonormal columns (density-matrix clause)
+            mo = np.linalg.qr(Q @ _cmat(n, seed, 11))[0][:, :na]
         trial = wf.rhf(n, (na, nb), n_batch=n_batch)
         wd = {"mo_coeff": jnp.asarray(mo)}
         ket = fock.ket_uhf(n, na, nb, mo, mo)
@@ -144,6 +146,8 @@ def build(kind, n, na, nb, seed=0, variant="", n_batch=1, eps=None, full_basis=T
         Ta = _tmat(na, seed, 2) if variant.startswith("nonorth") else _cmat(na, seed, 2) if variant.startswith("complex") else np.eye(na)
         Tb = _tmat(nb, seed, 3) if variant.startswith("nonorth") else _cmat(nb, seed, 3) if variant.startswith("complex") else np.eye(nb)
         moa, mob = Qa[:, :na] @ Ta, Qb[:, :nb] @ Tb
+        if variant == "complex_orth":
+            moa, mob = np.linalg.qr(Qa @ _cmat(n, seed, 12))[0][:, :na], np.linalg.qr(Qb @ _cmat(n, seed, 13))[0][:, :nb]
         cls = wf.uhf if kind == "uhf" else wf.uhf_cpmc
         trial = cls(n, (na, nb), n_batch=n_batch)
         wd = {"mo_coeff": [jnp.asarray(moa), jnp.asarray(mob)]}
@@ -172,8 +176,10 @@ def build(kind, n, na, nb, seed=0, variant="", n_batch=1, eps=None, full_basis=T
 
         C = C0 @ expm(K)
         if kind in ("ghf", "ghf_cpmc"):
-            T = (np.eye(N) + 0.3 * rng.normal(size=(N, N))) if variant == "nonorth" else np.eye(N)
+            T = (np.eye(N) + 0.3 * rng.normal(size=(N, N))) if variant == "nonorth" else _cmat(N, seed, 4) if variant == "complex" else np.eye(N)
             mo = C[:, :N] @ T
+            if variant == "complex_orth":
+                mo = np.linalg.qr(C @ _cmat(2 * n, seed, 14))[0][:, :N]
             cls = wf.ghf if kind == "ghf" else wf.ghf_cpmc
             trial = cls(n, (na, nb), n_batch=n_batch)
             wd = {"mo_coeff": jnp.asarray(mo)}
@@ -212,8 +218,12 @@ def build(kind, n, na, nb, seed=0, variant="", n_batch=1, eps=None, full_basis=T
             Kb = rng.normal(size=(n, n))
             Ra = expm(0.15 * d * (Ka - Ka.T))
             Rb = expm(0.15 * d * (Kb - Kb.T))
-            Ta = _tmat(na, seed, 20 + d) if variant == "nonorth" else np.eye(na)
-            Tb = _tmat(nb, seed, 30 + d) if variant == "nonorth" else np.eye(nb)
+            Ta = _tmat(na, seed, 20 + d) if variant == "nonorth" else _cmat(na, seed, 20 + d) if variant == "complex" else np.eye(na)
+            Tb = _tmat(nb, seed, 30 + d) if variant == "nonorth" else _cmat(nb, seed, 30 + d) if variant == "complex" else np.eye(nb)
+            if variant == "complex_orth":  # genuinely complex, orthonormal columns in every determinant
+                dets_up.append(np.linalg.qr(Qa @ Ra @ _cmat(n, seed, 40 + d))[0][:, :na])
+                dets_dn.append(np.linalg.qr(Qb @ Rb @ _cmat(n, seed, 50 + d))[0][:, :nb])
+                continue
             dets_up.append((Qa @ Ra)[:, :na] @ Ta)
             dets_dn.append((Qb @ Rb)[:, :nb] @ Tb)
         dets_up, dets_dn = np.array(dets_up), np.array(dets_dn)
